@@ -145,6 +145,7 @@ func Check_Sequences() {
 	sx.Assume(id >= 256)
 	sx.Assert(set.PrepareSet(t, id) == nil, "prepare")
 	sx.Assert(fresh.PrepareSet(t, id) == nil, "prepare-fresh")
+	sx.Assert(sx.EqBytes(set.GetHeaderBuffer(), fresh.GetHeaderBuffer()), "reused-set-header-differs-from-new-set")
 	var body []byte
 	nadds := sx.Range("adds", 1, maxAdds)
 	updAt := sx.Choose("updateAfter", nadds+1) // UpdateLenInHeader after this many adds (and again at the end)
@@ -169,6 +170,8 @@ func Check_Sequences() {
 		body = append(body, enc...)
 		invariants(set, body)
 		sx.Assert(set.GetSetLength() == fresh.GetSetLength(), "reused-set-length-differs-from-new-set")
+		sx.Assert(sx.EqBytes(set.GetHeaderBuffer(), fresh.GetHeaderBuffer()), "reused-set-header-differs-from-new-set")
+		sx.Assert(sx.EqBytes(serialize(set), serialize(fresh)), "reused-set-bytes-differ-from-new-set")
 		sx.Assert(set.GetNumberOfRecords() == fresh.GetNumberOfRecords(), "reused-set-record-count")
 	}
 	set.UpdateLenInHeader()
@@ -210,7 +213,7 @@ func Check_AddPaths() {
 		if r == 0 {
 			n := sx.Range("nelems", 0, maxElems)
 			kinds = make([]common.Kind, n)
-			pool := []common.Kind{common.KU8, common.KU16, common.KU32, common.KU64, common.KMac, common.KIPv4, common.KString, common.KOctetVar, common.KAntreaS, common.KRevU64}
+			pool := []common.Kind{common.KU8, common.KU16, common.KU32, common.KU64, common.KMac, common.KIPv4, common.KString, common.KOctetVar, common.KAntreaS, common.KRevU64, common.KUserFixedStr}
 			for i := range kinds {
 				kinds[i] = pool[sx.Choose("kind", len(pool))]
 			}
